@@ -489,6 +489,75 @@ Proof.
   rewrite udd_U_shipped. unfold dd_F. rewrite udd_y, cabs2_neg, cabs2_mul, cexp_abs2, cabs2_conj, Rmult_1_l. reflexivity.
 Qed.
 
+(* ------------------------------------------------------------------ CDD sign function = product of Rademacher functions *)
+Lemma fold_ext_in (F G : nat -> R) l : (forall k, In k l -> F k = G k) ->
+  fold_right (fun k acc => F k * acc) 1 l = fold_right (fun k acc => G k * acc) 1 l.
+Proof. induction l; intros H; simpl. reflexivity. rewrite H, IHl; auto. intros; apply H; right; auto. left; auto. Qed.
+Lemma fold_map_S (F : nat -> R) l :
+  fold_right (fun k acc => F k * acc) 1 (map S l) = fold_right (fun k acc => F (S k) * acc) 1 l.
+Proof. induction l; simpl. reflexivity. rewrite IHl. reflexivity. Qed.
+
+Lemma rad_sign_S g m : rad_sign (S g) m = (-1) ^ (m / 2 ^ g) * rad_sign g m.
+Proof.
+  unfold rad_sign. change (seq 1 (S g)) with (1%nat :: seq 2 g). rewrite <- seq_shift.
+  simpl fold_right. rewrite fold_map_S. unfold rad at 1. replace (S g - 1)%nat with g by lia.
+  f_equal.
+Qed.
+
+Lemma pow2_nat_pos n : (0 < 2 ^ n)%nat. Proof. apply Nat.neq_0_lt_0, Nat.pow_nonzero. lia. Qed.
+
+Lemma rad_sign_shift g m : rad_sign g (2 ^ g + m) = rad_sign g m.
+Proof.
+  unfold rad_sign. apply fold_ext_in. intros k Hk. apply in_seq in Hk. unfold rad.
+  assert (E : (2 ^ g = 2 ^ k * 2 ^ (g - k))%nat) by (rewrite <- Nat.pow_add_r; f_equal; lia).
+  rewrite E, Nat.div_add_l by (generalize (pow2_nat_pos (g - k)); lia).
+  rewrite pow_add. replace (2 ^ k)%nat with (2 * 2 ^ (k - 1))%nat.
+  rewrite pow_1_even. ring.
+  replace k with (S (k - 1)) at 2 by lia. reflexivity.
+Qed.
+
+Lemma rad_sign_lo g m : (m < 2 ^ g)%nat -> rad_sign (S g) m = rad_sign g m.
+Proof. intros H. rewrite rad_sign_S, Nat.div_small by auto. simpl. ring. Qed.
+Lemma rad_sign_hi g m : (m < 2 ^ g)%nat -> rad_sign (S g) (2 ^ g + m) = - rad_sign g m.
+Proof.
+  intros H. rewrite rad_sign_S, rad_sign_shift.
+  replace ((2 ^ g + m) / 2 ^ g)%nat with 1%nat. simpl. ring.
+  symmetry. replace (2 ^ g + m)%nat with (1 * 2 ^ g + m)%nat by lia.
+  rewrite Nat.div_add_l by (generalize (pow2_nat_pos g); lia). rewrite Nat.div_small by auto. lia.
+Qed.
+
+Lemma pow2_R_neq n : (2:R) ^ n <> 0. Proof. apply pow_nonzero. lra. Qed.
+
+Lemma rad_y_step g z : rad_y (S g) z = cmul' (csub' 1c (cexp' (z / 2))) (rad_y g (z / 2)).
+Proof.
+  unfold rad_y. change (2 ^ S g)%nat with (2 * 2 ^ g)%nat. replace (2 * 2 ^ g)%nat with (2 ^ g + 2 ^ g)%nat by lia.
+  rewrite csumn_app.
+  assert (Hez : forall x, ez z (x / 2 ^ S g) = ez (z / 2) (x / 2 ^ g)).
+  { intros x. unfold ez. f_equal. simpl. field. apply pow2_R_neq. }
+  assert (Hez2 : forall x, ez z ((2 ^ g + x) / 2 ^ S g) = cmul' (cexp' (z / 2)) (ez (z / 2) (x / 2 ^ g))).
+  { intros x. unfold ez. rewrite <- cexp_add. f_equal. simpl. field. apply pow2_R_neq. }
+  rewrite (csumn_ext (2 ^ g) _ (fun m => cscal RO (rad_sign g m)
+            (csub' (ez (z / 2) (INR (S m) / 2 ^ g)) (ez (z / 2) (INR m / 2 ^ g))))).
+  2:{ intros m Hm. rewrite rad_sign_lo, !Hez by auto. reflexivity. }
+  rewrite (csumn_ext (2 ^ g) (fun k => cscal RO (rad_sign (S g) (2 ^ g + k)) _)
+            (fun m => cmul' (cneg' (cexp' (z / 2))) (cscal RO (rad_sign g m)
+               (csub' (ez (z / 2) (INR (S m) / 2 ^ g)) (ez (z / 2) (INR m / 2 ^ g)))))).
+  2:{ intros m Hm. rewrite rad_sign_hi by auto.
+      assert (H2 : INR (2 ^ g) = 2 ^ g) by (rewrite pow_INR; f_equal; simpl; lra).
+      replace (INR (S (2 ^ g + m))) with (2 ^ g + INR (S m)) by (rewrite !S_INR, plus_INR, H2; ring).
+      replace (INR (2 ^ g + m)) with (2 ^ g + INR m) by (rewrite plus_INR, H2; ring).
+      rewrite !Hez2. apply c_eq; csimp; ring. }
+  rewrite csumn_mul_l. ring.
+Qed.
+
+Theorem cdd_rademacher g z : dd_y (cdd_times g) z = rad_y g z.
+Proof.
+  revert z. induction g; intros z.
+  - unfold rad_y, dd_y, rad_sign. simpl. unfold ez. replace (z * (1 / 1)) with (z * 1) by field.
+    replace (z * (0 / 1)) with (z * 0) by field. apply c_eq; csimp; ring.
+  - rewrite cdd_y_step, rad_y_step, IHg. reflexivity.
+Qed.
+
 (* ------------------------------------------------------------------ link to the numeric model *)
 (* One segment of the control matrix for H_c = 0 (eigenvalues 0): the model's phase factor times
    its first-order integral, multiplied by i w, is the spec's increment e^{i w t_{g+1}} - e^{i w t_g}. *)
